@@ -271,6 +271,53 @@ CLAIMED['C11'] = dict(
     ref='4 C11',
     note='linear forms only; a non-linear rewrite is an ANALYSIS-ERROR, not '
          'a pass')
+CLAIMED['C01'] = dict(
+    technique='regex language inclusion (subset construction); '
+              'who-may-call query with origin pairing; provenance '
+              'classification; width agreement',
+    text='Partial: the line-end pattern\'s language is included in '
+         '[ \\t]*\\n, it is applied anchored at the cursor and the cursor '
+         'advances by the match length; only the block parser skips line '
+         'ends and only at the end of a block tag; everything appended to '
+         'a block list is a plain slice of the source (guarded only by '
+         'non-emptiness) or a compiled command; a str/bytes block reaches '
+         'the output unchanged and pieces are joined in list order; the '
+         'scanner\'s prefix literals match their slice widths and name '
+         'offsets. Not decided: that offsets tile the text, that the '
+         'scanner never claims near-tag text, the concatenation law.',
+    ref='4 C01, 3.5',
+    note='reference language [ \\t]*\\n')
+CLAIMED['C07'] = dict(
+    technique='override-set query on the class hierarchy; normalised '
+              'decision comparison of the two parseTag siblings; '
+              'scanner/reader key agreement; entity constants',
+    text='Partial: subclasses of String override only the scanner hooks '
+         '(tagre, parseTag, SubTemplate, varExtra, errQuote, __str__) and '
+         'UI methods -- parse, parse_block, parse_close, _parseTag, '
+         'skip_eol, cook, __call__, commands have one definition; the two '
+         'tag readers return the same tuples, raise the same errors and '
+         'test the same conditions up to the end-tag marker; every return '
+         'path of the SGML scanner defines 0/end/name/args and the offset '
+         'the reader uses, the EPFS pattern names the groups its reader '
+         'reads; entities compile to var tags with html_quote / split '
+         'modifiers; SGML var tags carry the plain format. Not decided: '
+         'that the three scanners delimit the same tags on all inputs.',
+    ref='4 C07',
+    note='shares C03.R3 and C01.R4')
+CLAIMED['C20'] = dict(
+    technique='stage extraction and mirror comparison of the codec '
+              'pipelines; arithmetic agreement of chunk constants; AST '
+              'twin comparison of the encoders',
+    text='Narrow: decode_seq applies the inverse stages of encode_seq in '
+         'reverse order (ascii, translate, padding, base64, zlib, json), '
+         'the two translation tables are inverse, compress/decompress use '
+         'one text encoding; encoder chunk a and decoder chunk b satisfy '
+         '4a = 3b and each function uses one chunk constant; encode_seq '
+         'and encode_str chunk, strip and translate identically. Not '
+         'decided: state evolution over click histories (apply_diff, row '
+         'rendering), the round trip on all states.',
+    ref='4 C20',
+    note='the expand/collapse half of the property is not claimed')
 PENDING = {}
 NA = {
     'C16': 'numerical identities over run-time data (sums, means, n vs n-1, '
